@@ -11,7 +11,7 @@ use super::workers::Worker;
 use super::Args;
 
 /// wall-clock allowance for one tiny in-process search before the watchdog calls it an overrun
-const ALLOW: std::time::Duration = std::time::Duration::from_secs(3);
+const ALLOW: std::time::Duration = std::time::Duration::from_secs(6);
 
 pub const KINDS: [&str; 7] = ["depth", "nodes", "movetime", "wtime", "btime", "winc", "binc"];
 pub const VALUES: [[u128; 2]; 7] = [[1, 2], [1, 30], [0, 50], [0, 1000], [0, 1000], [0, 100], [0, 100]];
@@ -69,7 +69,7 @@ pub fn judge_go(out: &Out, legal: &[String]) -> Option<String> {
         return Some(format!("the search panicked ({p}) - no bestmove is sent"));
     }
     if out.overran {
-        return Some("the search did not end on its own: no bestmove within 3 s although every limit of this go had expired or was tiny".to_string());
+        return Some("the search did not end on its own: no bestmove within 6 s although every limit of this go had expired or was tiny".to_string());
     }
     let bm = searchrun::bestmoves(&out.log);
     if bm.len() != 1 {
